@@ -1811,9 +1811,11 @@ fn validate_clientid(client_id: &str) -> Result<(), RouterError> {
 }
 
 fn extract_group(filter: &str) -> Option<(String, String)> {
+    // a shared subscription is identified by its share name *and* its topic filter: the same
+    // share name on another filter is a different group with its own cursor and members
     filter.strip_prefix("$share/").and_then(|s| {
         s.split_once('/')
-            .map(|(group, path)| (group.to_string(), path.to_string()))
+            .map(|(_group, path)| (s.to_string(), path.to_string()))
     })
 }
 // #[cfg(test)]
